@@ -498,6 +498,113 @@ fn space_wire(max_len: u32) -> Space {
     .chunked(len)
 }
 
+// --------------------------------------------------------------------------------------------
+// the directory half, observed on the file system: a symbol directory three levels deep in a scratch tree in
+// which decoy files are planted at every level OUTSIDE it; whatever the real SimpleSymbolSupplier returns for a
+// module must lie inside the symbol directory
+
+const PLANT_TOKENS: [&str; 7] = ["x", ".", "..", "/", "\\", "C:", "\0"];
+const PLANT_ID: &str = "ABCD1234ABCD1234ABCDABCD12345678a";
+
+fn plant_tree() -> &'static (PathBuf, PathBuf) {
+    static TREE: std::sync::OnceLock<(PathBuf, PathBuf)> = std::sync::OnceLock::new();
+    TREE.get_or_init(|| {
+        let top = std::env::temp_dir().join(format!("verif-c17-{}-planted", std::process::id()));
+        let _ = std::fs::remove_dir_all(&top);
+        let root = top.join("a/b/symbols");
+        std::fs::create_dir_all(&root).expect("symbol dir");
+        const SYM: &str = "MODULE Linux x86 ABCD1234ABCD1234ABCDABCD12345678a x\n";
+        for level in [top.clone(), top.join("a"), top.join("a/b")] {
+            for f in ["x", "x.sym", "x.pdb", "x.dll", "x.dbg", "x.so", "x.exe", ".sym"] {
+                std::fs::write(level.join(f), SYM).expect("decoy");
+            }
+            for d in [format!("x/{PLANT_ID}"), format!("{PLANT_ID}"), "x.pdb/".to_string() + PLANT_ID, "5AB38FE2c000".to_string(), "x/5AB38FE2c000".to_string()] {
+                // not inside the symbol directory itself
+                if level.join(&d).starts_with(&root) {
+                    continue;
+                }
+                let _ = std::fs::create_dir_all(level.join(&d));
+                for f in ["x.sym", ".sym", "x", "x.dll", "x.pdb", "x.dbg"] {
+                    let _ = std::fs::write(level.join(&d).join(f), SYM);
+                }
+            }
+        }
+        // and what a genuine symbol directory holds for modules named x / x.pdb / x.dll
+        for d in [format!("x/{PLANT_ID}"), format!("x.pdb/{PLANT_ID}"), "x.dll/5AB38FE2c000".to_string(), "x/5AB38FE2c000".to_string()] {
+            std::fs::create_dir_all(root.join(&d)).expect("inside dir");
+            for f in ["x.sym", "x", "x.dll", "x.pdb", "x.dbg", "x.dl_", "x.pd_"] {
+                std::fs::write(root.join(&d).join(f), SYM).expect("inside file");
+            }
+        }
+        (top, root)
+    })
+}
+
+fn space_planted(max_len: u32) -> Space {
+    thread_local! {
+        static RT2: tokio::runtime::Runtime = tokio::runtime::Builder::new_current_thread().build().expect("runtime");
+    }
+    let k = PLANT_TOKENS.len() as u64;
+    let n_str = seq_count(k, max_len);
+    // + the absolute paths of three planted decoys as names
+    let radices = [n_str + 3, 3];
+    let len = product(&radices);
+    let decode = move |idx: u64| {
+        let d = unrank(idx, &radices);
+        let s: String = if d[0] < n_str {
+            seq_unrank(d[0], k, max_len).iter().map(|&t| PLANT_TOKENS[t as usize]).collect()
+        } else {
+            let (top, _) = plant_tree();
+            [top.join("x"), top.join("a/x.pdb"), top.join("a/b/x.dll")][(d[0] - n_str) as usize].display().to_string()
+        };
+        (s, d[1])
+    };
+    let run = move |idx: u64, l: &mut Local| {
+        use breakpad_symbols::SymbolSupplier;
+        let (top, root) = plant_tree();
+        let (name, which) = decode(idx);
+        let id: DebugId = "abcd1234-abcd-1234-abcd-abcd12345678-a".parse().expect("id");
+        let ids = (Some(id), Some(CodeId::new("5AB38FE2c000".into())));
+        let m = match which {
+            0 => simple_module(Some(name.clone()), "x.dll".into(), &ids),
+            1 => simple_module(Some("x.pdb".into()), name.clone(), &ids),
+            _ => simple_module(Some(name.clone()), name.clone(), &ids),
+        };
+        let sup = breakpad_symbols::SimpleSymbolSupplier::new(vec![root.clone()]);
+        let found: Vec<(&'static str, PathBuf)> = RT2.with(|rt| {
+            rt.block_on(async {
+                let mut v = vec![];
+                for (label, kind) in [("locate_file(BreakpadSym)", FileKind::BreakpadSym), ("locate_file(Binary)", FileKind::Binary), ("locate_file(ExtraDebugInfo)", FileKind::ExtraDebugInfo)] {
+                    if let Ok(p) = sup.locate_file(&m, kind).await {
+                        v.push((label, p));
+                    }
+                }
+                v
+            })
+        });
+        l.eval();
+        if found.is_empty() {
+            l.outcome("nothing-found");
+        }
+        for (label, p) in found {
+            let real = std::fs::canonicalize(&p).unwrap_or_else(|_| p.clone());
+            let root_real = std::fs::canonicalize(root).unwrap_or_else(|_| root.clone());
+            if real.starts_with(&root_real) {
+                l.outcome("found-inside-the-symbol-directory");
+            } else {
+                l.outcome("found-outside-the-symbol-directory");
+                let shown = p.display().to_string().replace(&top.display().to_string(), "<scratch>");
+                l.violation("c17:supplier:file-outside-the-symbol-directory", format!("{label} for a module named {name:?} returns {shown:?}, which is outside the only symbol directory <scratch>/a/b/symbols"), json!({"name": name, "field": (["debug_file", "code_file", "both"][which as usize]), "returned": shown}));
+            }
+        }
+        l.distinct(&("planted", name, which));
+    };
+    Space::new("planted-decoys", len, run, move |idx| {
+        let (s, which) = decode(idx);
+        json!({"class": "planted-decoys", "name": s, "field": (["debug_file", "code_file", "both"][which as usize])})
+    })
+}
+
 fn main() {
     // before any HTTP client exists: the whole process talks HTTP(S) through the loopback proxy
     let proxy = start_proxy();
@@ -512,7 +619,7 @@ fn main() {
         let mut def = CheckDef::new(
             "C17",
             "exploration",
-            "bounded-exhaustive: every string of length <= N over {a . / \\ : C NUL é} as debug_file (code_file in {\"\", x.pdb, ../y}) and as code_file (debug_file in the same menu), every pair (debug_file absent or any string, code_file any string) of strings of length <= 3, each x 5 (debug id, code id) combinations, through breakpad_sym_lookup, extra_debuginfo_lookup, binary_lookup, lookup(module, kind) for the 3 FileKinds, moz_lookup of each of those, code_info_breakpad_sym_lookup; plus MinidumpModules read from synthesized dumps with every PDB name of length <= 3 x 4 module names, and MinidumpUnloadedModules. Every cache_rel / server_rel / path returned is judged textually (leading separator, X: prefix, `..` component under either separator) and, if textually clean, by Path::join onto a root + lexical normalisation. The server-URL half is observed on the wire: the real HttpSymbolSupplier (server URL with a root directory) looks up symbols, binary and debug file of a module named by every sequence of <= 3 [thorough 4] tokens over {a . .. %2e %2E : https: http: / \\ ? # % @} (as debug_file, as code_file, as both) while the process sends all HTTP(S) traffic through a logging loopback proxy: every request must be a GET to the configured host whose path lies under the root and has no segment that percent-decodes to `..`; symbol files are served, and whatever the supplier then creates on disk must lie inside its cache / tmp directories (placed three levels deep in a scratch directory that is listed after every case). evaluations = lookup calls judged (2 per FileLookup); distinct_nontrivial = distinct (leaf of debug_file, leaf of code_file, id combination) among modules for which at least one lookup exists.",
+            "bounded-exhaustive: every string of length <= N over {a . / \\ : C NUL é} as debug_file (code_file in {\"\", x.pdb, ../y}) and as code_file (debug_file in the same menu), every pair (debug_file absent or any string, code_file any string) of strings of length <= 3, each x 5 (debug id, code id) combinations, through breakpad_sym_lookup, extra_debuginfo_lookup, binary_lookup, lookup(module, kind) for the 3 FileKinds, moz_lookup of each of those, code_info_breakpad_sym_lookup; plus MinidumpModules read from synthesized dumps with every PDB name of length <= 3 x 4 module names, and MinidumpUnloadedModules. Every cache_rel / server_rel / path returned is judged textually (leading separator, X: prefix, `..` component under either separator) and, if textually clean, by Path::join onto a root + lexical normalisation. The server-URL half is observed on the wire: the real HttpSymbolSupplier (server URL with a root directory) looks up symbols, binary and debug file of a module named by every sequence of <= 3 [thorough 4] tokens over {a . .. %2e %2E : https: http: / \\ ? # % @} (as debug_file, as code_file, as both) while the process sends all HTTP(S) traffic through a logging loopback proxy: every request must be a GET to the configured host whose path lies under the root and has no segment that percent-decodes to `..`; symbol files are served, and whatever the supplier then creates on disk must lie inside its cache / tmp directories (placed three levels deep in a scratch directory that is listed after every case). Symbol directories: the real SimpleSymbolSupplier searches one symbol directory placed three levels deep in a scratch tree whose outer levels are full of decoy files (x, x.sym, x.pdb, x.dll, ..., <id>/x.sym, ...) for modules named by every sequence of <= 4 [thorough 5] tokens over {x . .. / \\ C: NUL} and by the absolute paths of decoys; every path it returns must lie inside the symbol directory. evaluations = lookup calls judged (2 per FileLookup); distinct_nontrivial = distinct (leaf of debug_file, leaf of code_file, id combination) among modules for which at least one lookup exists.",
         );
         def.assumptions = vec![
             "the oracle is textual and platform independent; `.` components, empty components (`a//b`), NUL bytes and non-ASCII inside a name are not escapes and are accepted".into(),
@@ -531,7 +638,7 @@ fn main() {
                 }
             }
         }));
-        def.spaces = vec![space_one_field("debug_file", true, n), space_one_field("code_file", false, n), space_pairs(3), space_suffixed(n - 1), space_minidump_modules(3), space_wire(ctx.tier.pick(3, 4))];
+        def.spaces = vec![space_one_field("debug_file", true, n), space_one_field("code_file", false, n), space_pairs(3), space_suffixed(n - 1), space_minidump_modules(3), space_wire(ctx.tier.pick(3, 4)), space_planted(ctx.tier.pick(4, 5))];
         def
     })
 }
